@@ -179,14 +179,23 @@ func OpenBucket(urlStr string, bucketName string, mode OpenMode) (b *Bucket, err
 		serial:          serial,
 	}
 	bucket.expManager = newExpirationManager(bucket.doExpiration)
+	vers := -1 // schema version found in the file; -1 = not read yet
 	defer func() {
 		if err != nil {
-			_ = bucket.CloseAndDelete(ctx)
+			if vers == 0 {
+				_ = bucket.CloseAndDelete(ctx) // remove the half-created bucket again
+			} else {
+				// The bucket existed before this call (or its state is unknown): failing to open it, e.g.
+				// because another process holds the database locked, is no reason to delete its data.
+				bucket.mutex.Lock()
+				bucket.closed = true
+				bucket.mutex.Unlock()
+				bucket.shutDownStore()
+			}
 		}
 	}()
 
 	// Initialize the schema if necessary:
-	var vers int
 	err = db.QueryRow(`PRAGMA user_version`).Scan(&vers)
 	if err != nil {
 		return nil, err
